@@ -147,3 +147,70 @@ Example C20_example_direct_relative :
   /\ main_files "/w" "/pkg" [""; "/w/in.txt"] = {| f_report := "/pkg/HDR.out"; f_json := Some "/w/HDR.json" |}
   /\ is_abs (parse "rel.out") = false /\ wf_abs (parse "/pkg") = true.
 Proof. vm_compute. repeat split; reflexivity. Qed.
+
+(* ================= HIP-RA-X (python -m hip_ra_x.hip_ra_x, HipRaXClient, the Monte-Carlo driver's client call) ================= *)
+
+(* with ABSOLUTE normalised input and output paths the script (from any directory, package installed anywhere) and the
+   client read the same input file, give the same outcome and write the report to exactly the requested path *)
+Theorem C20_hip_entry_points_agree :
+  forall (hrun : string -> hsim) (cwd pkg pkg' : string) (pin pout : path),
+  wf_abs pin = true -> wf_abs pout = true ->
+  hip_script hrun cwd pkg (to_str pin) (Some (to_str pout)) true = hip_client hrun pkg' (to_str pin) (to_str pout) true
+  /\ (forall rep, hrun (fs_canon (to_str pin)) = HOk rep ->
+        hip_script hrun cwd pkg (to_str pin) (Some (to_str pout)) true
+        = {| ho_raises := false; ho_report_at := Some (to_str pout); ho_text := Some rep |}).
+Proof. exact hip_entry_points_agree. Qed.
+Print Assumptions C20_hip_entry_points_agree.
+
+(* where the script's arguments lead in general: nothing depends on the starting directory; input, output and the
+   default HIP.out are all resolved against the PACKAGE directory main() chdir()s into before it reads sys.argv[1] *)
+Theorem C20_hip_script_paths :
+  forall (cwd cwd' pkg inp : string) (out : option string) (dir_ok : bool) (hrun : string -> hsim),
+  wf_abs (parse pkg) = true ->
+  hip_script hrun cwd pkg inp out dir_ok = hip_script hrun cwd' pkg inp out dir_ok
+  /\ parse (h_input (hip_files pkg [""; inp])) = join (parse pkg) (parse inp)
+  /\ parse (h_report (hip_files pkg [""; inp])) = {| p_root := p_root (parse pkg); p_parts := (p_parts (parse pkg) ++ ["HIP.out"])%list |}
+  /\ (forall o, parse (h_report (hip_files pkg [""; inp; o])) = join (parse pkg) (parse o)).
+Proof. exact hip_script_paths. Qed.
+Print Assumptions C20_hip_script_paths.
+
+(* so the clause "writes the report to the requested relative path" (C20_cli_requested_path for GEOPHIRES) is REFUTED
+   for the HIP-RA-X command line: a relative input is looked for, and a relative output written, in the package
+   directory.  FINDING, reproduced by tools/props/C20.py (key hip-ra-x-cli:relative-path-resolved-against-package-dir). *)
+Theorem C20_hip_requested_path_refuted :
+  exists cwd pkg inp out, wf_abs (parse cwd) = true /\ wf_abs (parse pkg) = true /\ is_abs (parse inp) = false /\
+    h_input (hip_files pkg [""; inp; out]) <> absolute cwd inp /\ h_report (hip_files pkg [""; inp; out]) <> absolute cwd out
+    /\ h_input (hip_files pkg [""; inp; out]) = "/pkg/in.txt".
+Proof. exact hip_requested_path_counterexample. Qed.
+Print Assumptions C20_hip_requested_path_refuted.
+
+(* exit status of the script: a failure while the parameters are read gives a non-zero status and no report; success
+   with an existing output directory gives status 0 and the report at the resolved path ... *)
+Theorem C20_hip_exit_partial :
+  forall (hrun : string -> hsim) (cwd pkg inp : string) (out : option string) (dir_ok : bool),
+  (hrun (fs_canon (h_input (hip_files pkg ("" :: inp :: match out with Some o => [o] | None => [] end)))) = HFail ->
+     hip_status (hip_script hrun cwd pkg inp out dir_ok) <> 0%Z /\ ho_report_at (hip_script hrun cwd pkg inp out dir_ok) = None)
+  /\ (forall rep, hrun (fs_canon (h_input (hip_files pkg ("" :: inp :: match out with Some o => [o] | None => [] end)))) = HOk rep ->
+        dir_ok = true ->
+        hip_status (hip_script hrun cwd pkg inp out dir_ok) = 0%Z
+        /\ ho_report_at (hip_script hrun cwd pkg inp out dir_ok)
+           = Some (h_report (hip_files pkg ("" :: inp :: match out with Some o => [o] | None => [] end)))
+        /\ ho_text (hip_script hrun cwd pkg inp out dir_ok) = Some rep).
+Proof. exact hip_exit_status. Qed.
+Print Assumptions C20_hip_exit_partial.
+
+(* ... but when the report cannot be written (main() swallows every exception of Calculate and PrintOutputs) the
+   script exits with status 0 and no report, where the client raises.  FINDING (key hip-ra-x-cli:exit-0-report-not-written). *)
+Theorem C20_hip_exit_refuted :
+  exists (hrun : string -> hsim), forall cwd pkg inp out,
+    hip_status (hip_script hrun cwd pkg inp out false) = 0%Z /\ ho_report_at (hip_script hrun cwd pkg inp out false) = None
+    /\ ho_raises (hip_client hrun pkg inp "/tmp/r.out" false) = true.
+Proof. exact hip_exit_counterexample. Qed.
+Print Assumptions C20_hip_exit_refuted.
+
+Example C20_example_hip :
+  hip_files "/repo/src/hip_ra_x" [""; "/w/in.txt"; "/w/o.out"] = {| h_input := "/w/in.txt"; h_report := "/w/o.out" |}
+  /\ hip_files "/pkg" [""; "in.txt"] = {| h_input := "/pkg/in.txt"; h_report := "/pkg/HIP.out" |}
+  /\ wf_abs (parse "/w/in.txt") = true
+  /\ hip_status (hip_script (fun p => if String.eqb p "/w/in.txt" then HOk "r" else HFail) "/w" "/pkg" "in.txt" (Some "/w/o.out") true) = 1%Z.
+Proof. vm_compute. repeat split; reflexivity. Qed.
